@@ -58,6 +58,11 @@ def sid_to_dict(sid: str, _type: Optional[str] = None) -> Tuple[str, dict] | Tup
     if not data:
         return None, None
 
+    # The resolver anchors its patterns with "$", which also matches before a trailing newline.
+    # We only accept data that formats back to the given string.
+    if r.get_format_for(template).format(**data) != sid:
+        return None, None
+
     return template, data
 
 
